@@ -687,7 +687,7 @@ __CPROVER_requires(safety >= 0 && safety < g_helper_max_step && phys_step > g_li
 __CPROVER_assigns(g_draws)
 __CPROVER_ensures(__CPROVER_return_value > 0 && __CPROVER_return_value <= phys_step)
 ;
-/* UrbanMscMinimalStepLimit{...}(rng): same constructor EXPECTs; result <= the physics step (assumed: not under contract) */
+/* UrbanMscMinimalStepLimit{...}(rng): same constructor EXPECTs; 0 < result <= the physics step (contracts: c05_msc_minimal_limit_ctor / _call) */
 real_type MINIMAL_limit(bool on_boundary, real_type phys_step, real_type range)
 __CPROVER_requires(phys_step > g_limit_min_fix && phys_step <= range)
 __CPROVER_assigns(g_draws)
@@ -823,10 +823,80 @@ void h_umsa(void)
 UNITS += [
     Unit("c05_urban_msc_limit_step", build_ums_limit, "h_umsl", enforce="UMS_limit_step", replace=["GEO_find_safety", "SAFETY_limit", "MINIMAL_limit", "TOGEO_call", "STV_step_length_set", "STV_post_step_action_set"], timeout=300, object_bits=10, backend=["sat", "cvc5"],
          must_have=[r"UMS_limit_step.postcondition", r"celer_assert", r"SAFETY_limit.precondition", r"TOGEO_call.precondition", r"STV_step_length_set.precondition"], checks=LEAF_CHECKS,
-         assumptions=["UrbanMscSafetyStepLimit by its contracts (c05_msc_safety_limit_*), UrbanMscMinimalStepLimit <= the physics step (assumed)", "MscStepToGeo: geometric <= true (c14_msc_to_geo) and > 0 for a positive true path (assumed)", "find_safety >= 0 (C11)"],
+         assumptions=["UrbanMscSafetyStepLimit / UrbanMscMinimalStepLimit by their contracts (c05_msc_safety_limit_*, c05_msc_minimal_limit_*)", "MscStepToGeo: geometric <= true (c14_msc_to_geo) and > 0 for a positive true path (assumed)", "find_safety >= 0 (C11)"],
          note="UrbanMsc::limit_step: true path <= physics step limit, 0 < geometric path <= true path, the propagator gets the geometric path, the MSC action is recorded exactly when MSC shortened the step; the limiters' constructor EXPECTs (safety < max_step, step > limit_min_fix, step <= range) hold at the call sites; both in-body CELER_ASSERTs hold"),
     Unit("c05_urban_msc_apply_step", build_ums_apply, "h_umsa", enforce="UMS_apply_step", replace=["GEO_find_safety", "FROMGEO_call", "SCATTER_calc_displacement", "SCATTER_sample", "GEO_set_dir1", "GEO_move_internal1", "STV_step_length_set"], timeout=300, object_bits=10, backend=["sat", "cvc5"],
          must_have=[r"UMS_apply_step.postcondition", r"celer_assert", r"FROMGEO_call.precondition", r"STV_step_length_set.precondition"], checks=LEAF_CHECKS,
          assumptions=["MscStepFromGeo in [geometric, true] (c14_msc_from_geo)", "angular / displacement sampling not under contract (only: a displacement is returned only for a displaced step)", "find_safety >= 0 (C11)"],
          note="UrbanMsc::apply_step: the physical step restored after propagation is >= the geometric distance travelled (never shorter than the straight-line displacement) and <= the true path fixed before the step; an unshortened step gets back exactly its true path; callee preconditions and in-body CELER_ASSERTs hold"),
+]
+
+
+# ---- UrbanMscMinimalStepLimit (the `minimal` step-limit algorithm) ----------------------------------------
+UML = "src/celeritas/em/msc/detail/UrbanMscMinimalStepLimit.hh"
+UML_RULES = [r for r in USL_RULES] + [
+    Rule(r"shared\.params\.limit_min_fix\(\)", "g_limit_min_fix", "*", note="params accessor"),
+    Rule(r"helper\.msc_mfp\(\)", "g_mfp", "*", note="helper accessor"),
+    Rule(r"numeric_limits<real_type>::infinity\(\)", "__builtin_inf()", "*", note="numeric_limits::infinity"),
+    Rule(r"MscRange new_range = msc_range;", "MscRange new_range = *msc_range;", "*", note="copy of the referenced record"),
+    Rule(r"(?<![\w_])max\(", "fmax(", "*", note="celeritas::max<floating> == std::fmax"),
+]
+
+
+def build_uml_call(ctx):
+    pc = ctx.func(UML, r"CELER_FUNCTION real_type UrbanMscMinimalStepLimit::operator\(\)\(Engine& rng\)", UML_RULES, name="UrbanMscMinimalStepLimit::operator()")
+    src = build_usl_call(ctx)
+    k = src.index("{", src.index("__CPROVER_ensures(self->max_step_ > self->limit_ ==> __CPROVER_return_value >= self->limit_min_)"))
+    e = src.index("void h_usl(void)")
+    return src[:k] + "{" + pc.body + "}\n" + src[e:]
+
+
+def build_uml_ctor(ctx):
+    pc = ctx.span(UML, r"^UrbanMscMinimalStepLimit::UrbanMscMinimalStepLimit\(", r"\n\{\n.*?\n\}", [], name="UrbanMscMinimalStepLimit::UrbanMscMinimalStepLimit")
+    k = pc.body.index("\n{\n")
+    inits = dict(init_list(pc.body[:k]))
+    if inits != {"max_step_": "phys_step"}:
+        raise ExtractionDrift("UrbanMscMinimalStepLimit constructor initialiser list changed: %r" % inits)
+    from vkit.extract import strip_comments
+    body = strip_comments(pc.body[k + 3 : -1])
+    rep = []
+    for r in UML_RULES:
+        body = r.apply(body, rep, "UrbanMscMinimalStepLimit::UrbanMscMinimalStepLimit")
+    ctx.report.extend(rep)
+    return (HDR + USL_MODEL + algo_min_clamp(ctx) + """
+#define MSCR_HIST_OK(r) (!MSCR_VALID(r) || (r)->range_init >= (r)->limit_min)     /* what every earlier write of this constructor established (postcondition below): inductive over the track's history */
+void UML_ctor(UrbanMscSafetyStepLimit* self, bool on_boundary, real_type phys_step)
+__CPROVER_requires(__CPROVER_rw_ok(self, sizeof(*self)))
+__CPROVER_requires(phys_step > g_limit_min_fix && phys_step <= g_range)         /* own CELER_EXPECTs */
+__CPROVER_requires(g_range > 0 && !__CPROVER_isinfd(g_range) && g_limit_min_fix > 0 && !__CPROVER_isinfd(g_limit_min_fix) && NN(g_mfp) && g_range_factor > 0 && !__CPROVER_isinfd(g_range_factor))
+__CPROVER_requires(NN(g_msc_range.range_init) && NN(g_msc_range.range_factor) && NN(g_msc_range.limit_min) && MSCR_HIST_OK(&g_msc_range))
+__CPROVER_assigns(*self, g_msc_range)
+__CPROVER_ensures(self->max_step_ == phys_step)
+/* class invariant used by operator() */
+__CPROVER_ensures(""" + USL_INV.replace("NN(self->max_step_) && ", "") + """)
+/* the cached MSC range stays valid and keeps range_init >= limit_min (the history invariant assumed above) */
+__CPROVER_ensures(g_msc_range.limit_min > 0 && g_msc_range.range_init >= g_msc_range.limit_min)
+{
+    self->max_step_ = phys_step;   /* member initialiser list `max_step_(phys_step)` (checked on the extracted text) */
+    self->limit_min_ = 0; self->limit_ = 0;
+""" + body + """
+}
+void h_umlc(void)
+{
+    UrbanMscSafetyStepLimit s; real_type step; unsigned r1;
+    UML_ctor(&s, r1 != 0, step);
+    VERIF_CANARY();
+}
+""")
+
+
+UNITS += [
+    Unit("c05_msc_minimal_limit_call", build_uml_call, "h_usl", enforce="USL_call", replace=["GAUSS_sample"], timeout=300, backend=["sat", "cvc5"],
+         must_have=[r"USL_call.postcondition"], checks=LEAF_CHECKS,
+         assumptions=["NormalDistribution sample: any non-NaN value", "class invariant limit_ >= limit_min_ > 0, max_step_ > 0 (established in c05_msc_minimal_limit_ctor)"],
+         note="UrbanMscMinimalStepLimit::operator(): 0 < sampled true path limit <= the physics step limit"),
+    Unit("c05_msc_minimal_limit_ctor", build_uml_ctor, "h_umlc", enforce="UML_ctor", timeout=300, backend=["sat", "cvc5", "z3"],
+         must_have=[r"UML_ctor.postcondition", r"celer_expect"], checks=LEAF_CHECKS,
+         assumptions=["a valid cached MscRange satisfies range_init >= limit_min (established by every earlier write of this constructor: shown as a postcondition)", "the range-factor product on a boundary is real FP arithmetic; CELER_ASSERT(msc_range) after caching NOT promoted"],
+         note="UrbanMscMinimalStepLimit constructor: max_step == the physics step; limit >= limit_min > 0; every MscRange it caches keeps range_init >= limit_min"),
 ]
